@@ -409,6 +409,13 @@ class State:
             return False
         # keep the un-simplified term: z3's simplifier expands seq.nth into solver-specific symbols
         self.pc.append(term)
+        import os
+        if os.environ.get('VERIF_DEBUG') and len(term.sexpr()) > 3000 and not getattr(State, '_dbg', False):
+            State._dbg = True
+            import sys, traceback
+            print("DEBUG big pc term", len(term.sexpr()), file=sys.stderr)
+            traceback.print_stack(limit=40, file=sys.stderr)
+            sys.stderr.flush()
         return True
 
     def entails(self, cond):
